@@ -493,7 +493,7 @@ func damageCase(goit string, c *Chunk, snap map[string][]byte, tz int, good M, g
 	}
 	run("status", "status")
 	run("ls", "ls-files", "-s")
-	run("log", "log")
+	xlog := run("log", "log")
 	run("reflog", "reflog")
 	run("branches", "branch", "--list")
 	run("revparse", "rev-parse", "HEAD")
@@ -579,8 +579,28 @@ func damageCase(goit string, c *Chunk, snap map[string][]byte, tz int, good M, g
 	}
 	c.Lines = append(c.Lines, M{"kind": "state", "st": st, "obs": M{}, "trace": label})
 	dl := len(c.Lines)
+	// damage to an object file: what log lists (if it still succeeds) against what it listed before the damage
+	var logIds, goodLogIds []any
+	if m.class == "object" && m.kind != "craft" && xlog.Res == "ok" {
+		logIds, goodLogIds = []any{}, []any{}
+		for _, en := range parseLogOut(xlog.Stdout) {
+			logIds = append(logIds, en.(M)["id"])
+		}
+		if gl, ok := c.Lines[goodLine-1]["obs"].(M); ok {
+			if lg, ok := gl["log"].(M); ok {
+				if d, ok := lg["d"].(M); ok {
+					for _, en := range d["ents"].([]any) {
+						goodLogIds = append(goodLogIds, en.(M)["id"])
+					}
+				}
+			}
+		}
+	}
 	step := M{"kind": "step", "cls": "fs", "ev": "damage", "prel": goodLine, "postl": dl, "results": results, "delivered": delivered, "trace": label,
 		"target": M{"fclass": classOf[m.rel], "mutation": m.kind, "off": m.off, "val": m.val, "name": EscS(m.rel)}, "res": "damage"}
+	if logIds != nil {
+		step["logids"], step["goodlogids"] = logIds, goodLogIds
+	}
 	c.Lines = append(c.Lines, step)
 	sl := len(c.Lines)
 	return sl, results
